@@ -39,12 +39,19 @@ PEND = {'test': 'TestVerifPendQ', 'comp': 'pend', 'quick': {'VERIF_N': 150, 'VER
 RINGQ = {'test': 'TestVerifRingQ', 'comp': 'ringq', 'quick': {'VERIF_N': 100, 'VERIF_OPS': 300},
          'thorough': {'VERIF_N': 1000, 'VERIF_OPS': 600}, 'seeds': {'quick': 1, 'thorough': 4}}
 
+REASM = {'test': 'TestVerifReasm', 'comp': 'reasm', 'quick': {'VERIF_N': 300, 'VERIF_OPS': 300},
+         'thorough': {'VERIF_N': 3000, 'VERIF_OPS': 400}, 'seeds': {'quick': 1, 'thorough': 8}}
+
 PROPS = {
     'C05': {'jobs': [RQ]},
     'C16': {'jobs': [GENF, RQ]},
-    'C01': {'jobs': [E2E_T], 'rule': E2E_RULE},
+    'C01': {'jobs': [REASM, E2E_T], 'assumptions': [
+        'component theorem: the association hands each TSN to the stream at most once (C05) and chunks are the sender\'s fragments',
+        'fewer than 2^15 ordered messages of a stream outstanding (SSN half-space; known finding D15); fewer than 2^31 TSNs/MIDs outstanding']},
+    'C11': {'jobs': [REASM], 'assumptions': [
+        'sum of len(userData) over all chunks ever pushed < 2^63 (uint64 counter / int conversion in subtractNumBytes)']},
     'C02': {'jobs': [E2E_T], 'rule': E2E_RULE},
-    'C06': {'jobs': [E2E_PR, E2E_T], 'rule': E2E_RULE},
+    'C06': {'jobs': [E2E_PR, E2E_T, REASM], 'rule': E2E_RULE},
     'C07': {'jobs': [E2E_PR], 'rule': E2E_RULE},
     'C08': {'jobs': [E2E_SD], 'rule': E2E_RULE},
     'C04': {'jobs': [E2E_HS, E2E_T], 'rule': E2E_RULE},
